@@ -403,3 +403,11 @@ Definition lc01_ok (c : lscenario * obs) : bool :=
 
 Definition lfailing (p : lscenario * obs -> bool) (cs : list (lscenario * obs)) : list nat :=
   indices_where (fun c => negb (p c)) cs.
+
+(* C03 on a fine-grained schedule: every connection's PUBLISH packets in submission order, first
+   transmissions in submission order *)
+Definition lc03_ok (c : lscenario * obs) : bool :=
+  let '(_, o) := c in
+  negb (o_stuck o)
+  && forallb (fun k => nondecreasing_from 0 (publishes_on k (o_wire o))) (conns_of (o_wire o))
+  && increasing_from 0 (first_occurrences [] (request_tx (o_wire o))).
